@@ -121,7 +121,7 @@ def conc(case):
 def jobs(tier, seed):
     q = tier == "quick"
     base = dict(R=4 if q else 5, L=3 if q else 4)
-    out = [dict(base, op="sum0", dtype=dt) for dt in ("int64", "bool", "uint8")]
+    out = [dict(base, op="sum0", dtype=dt) if (q or dt == "int64") else dict(base, op="sum0", dtype=dt, R=4) for dt in ("int64", "bool", "uint8")]
     out.append(dict(base, op="sum0", dtype="int64", via="np"))
     out.append(dict(base, op="col_counts", dtype="int64"))
     out.append(dict(base, op="mean0", dtype="int64", R=3))
